@@ -422,7 +422,7 @@ func init() {
 		ID:    "C07",
 		Level: "exploration",
 		Rule: "component: PRNG-generated Add/Resize histories against the real ReplayCache in five regimes (capacities 0..20000, re-presentations aimed at the promise boundary d=m-1/m/2m, same salt under other ids), judged by a black-box spec (must-refuse / must-accept / either); " +
-			"concurrent: short multi-thread histories recorded at the call boundary and checked with porcupine against the same spec, plus 8-copies-one-winner rounds; end-to-end: identical handshakes presented concurrently and sequentially through real listeners, across services and SIGHUP reloads of the real binary; " +
+			"concurrent: short multi-thread histories recorded at the call boundary and checked with porcupine against the same spec, plus 8-copies-one-winner rounds; end-to-end: identical handshakes presented concurrently and sequentially through real listeners, across services (services: and legacy keys: format) and SIGHUP reloads of the real binary, history resized on a running service (0->N, N->0->N), refused copies get the probe deadline set once; " +
 			"a class is (phase, regime, input class, verdict, distance class, capacity bucket)",
 		Assumptions: []string{
 			"must-accept uses the checksum documented in replay.go only to excuse collisions",
